@@ -21,7 +21,10 @@ R = Registry(
         "SQL Server, Oracle) would re-associate the rendered infix tokens; (b) every declared negation of a "
         "comparison operator is its logical complement and negation is an involution; (c) only associative "
         "operators are flattened; (d) every operator-expression constructor applies self_group(against=its "
-        "operator) to its operands; (e) the generic operator->token table names the right token."
+        "operator) to its operands, an ungrouped operand list is built only where every compiler renders it "
+        "inside function-call parentheses, every self_group() of an operator-bearing class returns self only "
+        "where is_precedent() is false or the rendering is delimited in every compiler, and delegating "
+        "self_group()s forward `against`; (e) the generic operator->token table names the right token."
     ),
     not_decided=(
         "value-level agreement of whole rendered statements with a backend; dialect arithmetic rewrites; "
@@ -445,7 +448,7 @@ def _levels(grammar: List[List[str]]) -> Dict[str, int]:
     return lv
 
 
-@R.rule("C01-R1", floor=400, template="T-TABLE",
+@R.rule("C01-R1", floor=1100, template="T-TABLE",
         desc="for every (inner, outer) operator pair that is_precedent() leaves ungrouped, the inner operator's "
              "rendered token binds strictly tighter than the outer's in the standard-SQL order and in each "
              "backend grammar")
